@@ -18,6 +18,7 @@ import Proofs.FlatDate
 import Proofs.FlatNatural
 import Proofs.FlatRound
 import Proofs.FlatExamples
+import Proofs.FlatDecl
 import SpyneModel.Generated.Facts03
 import Props.Facts08Good
 namespace SpyneModel.Props.C03
@@ -116,6 +117,69 @@ theorem roundtrip (cfg : Cfg) (fields : List Fld) (ms : Members) (hsoft : cfg.so
   cases hs : cfg.strict with
   | false => exact documented_any_order cfg fields ms _ hs hsoft hwf hkeys hwt (List.Perm.refl _)
   | true => exact documented_strict cfg fields ms _ hs hsoft hwf hkeys hwt hcontig (List.Perm.refl _)
+
+/-! ### members that go by a `sub_name` -/
+
+/-- For every declared signature — members with or without `sub_name`, at every nesting depth, inside
+    argument objects and array elements — the flat signature the member table is built for names every
+    member by its OWN `sub_name` (its Python name when it has none): the keys of the documented notation
+    (`order.item.qty`, `order.lines[1].qty`) are the keys the decoder knows. -/
+theorem sub_names_at_every_depth (dfields : List DFld) :
+    keyedFields facts03 none dfields = ownFields dfields :=
+  keyedFields_own facts03 (by decide) none dfields
+
+/-- hence the documented notation written with the members' own sub_names reaches the user function,
+    pairs in any order … -/
+theorem documented_any_order_sub_names (cfg : Cfg) (dfields : List DFld) (ms : Members) (doc : Doc)
+    (hstrict : cfg.strict = false) (hsoft : cfg.soft = false)
+    (hwf : WfSig (ownFields dfields)) (hkeys : KeysOk cfg.delim (ownFields dfields))
+    (hwt : WtMembers facts03 (ownFields dfields) ms)
+    (hp : doc.Perm (docOf facts03 cfg.delim (ownFields dfields) ms)) :
+    decode facts03 cfg (keyedFields facts03 none dfields) doc = .ok (.obj (expAttrs (ownFields dfields) ms)) := by
+  rw [sub_names_at_every_depth]
+  exact documented_any_order cfg _ ms doc hstrict hsoft hwf hkeys hwt hp
+
+/-- … and what `object_to_simple_dict` writes for such an object maps back to an equal object. -/
+theorem roundtrip_sub_names (cfg : Cfg) (dfields : List DFld) (ms : Members) (hsoft : cfg.soft = false)
+    (hwf : WfSig (ownFields dfields)) (hkeys : KeysOk cfg.delim (ownFields dfields))
+    (hopt : OptFields (ownFields dfields))
+    (hwt : WtMembers facts03 (ownFields dfields) ms) (hcontig : ContigMembers ms)
+    (hord : InOrder (ownFields dfields) ms) :
+    decode facts03 cfg (keyedFields facts03 none dfields)
+        (toDoc facts03 (encode cfg.delim (ownFields dfields) (.obj (expAttrs (ownFields dfields) ms)))) =
+      .ok (.obj (expAttrs (ownFields dfields) ms)) := by
+  rw [sub_names_at_every_depth]
+  exact roundtrip cfg _ ms hsoft hwf hkeys hopt hwt hcontig hord
+
+example : keyedFields facts03 none
+    [("order".toList, none, Ex.occ1, .obj 1 [("quantity".toList, some "qty".toList, Ex.occ1, .prim Ex.pInt)])] =
+    [("order".toList, Ex.occ1, .obj 1 [("qty".toList, Ex.occ1, .prim Ex.pInt)])] := by
+  simp [keyedFields, keyedTy, keyName, facts03]
+
+/-! ### before the protocol: the transport's WSDL shortcut -/
+
+/-- A GET is answered with the WSDL instead of a method call only when the query string IS a request
+    for it: it starts with `wsdl` (any case) and that is the whole query, or `=` follows (`?wsdl`, `?WSDL=…`).
+    A value or key that merely ends in / contains `wsdl`, in whatever position, never hides the call. -/
+theorem wsdl_only_when_asked (qs : Text) (h : isWsdl facts03 qs = true) :
+    ∃ w rest, qs = w ++ rest ∧ w.map asciiLower = "wsdl".toList ∧ (rest = [] ∨ ∃ r, rest = '=' :: r) :=
+  isWsdl_firstName facts03 (by decide) qs h
+
+/-- `pair_order_irrelevant`, from the transport on: two query strings, neither a request for the WSDL,
+    whose parsed documents are permutations of each other (no two keys equal for the sort) have the same
+    outcome — for EVERY such text, configuration and signature. -/
+theorem pair_order_irrelevant_http (cfg : Cfg) (fields : List Fld) (qs qs' : Text)
+    (h1 : isWsdl facts03 qs = false) (h2 : isWsdl facts03 qs' = false)
+    (hp : (parseQs facts03 qs).Perm (parseQs facts03 qs'))
+    (hn : ((parseQs facts03 qs).map (fun kv => orderKey facts03 kv.1)).Nodup) :
+    httpGet facts03 cfg fields qs = httpGet facts03 cfg fields qs' := by
+  simp only [httpGet, h1, h2, Bool.false_eq_true, if_false, decodeQs]
+  rw [pair_order_irrelevant cfg fields _ _ hp hn]
+
+example : isWsdl facts03 "doc.kind=soap&n=1&doc.name=stock.wsdl".toList = false ∧
+    isWsdl facts03 "a=WSDL".toList = false ∧ isWsdl facts03 "n=1&wsdl".toList = false ∧
+    isWsdl facts03 "wsdl&n=1".toList = false ∧ isWsdl facts03 "xwsdl=1".toList = false ∧
+    isWsdl facts03 "WsDl".toList = true ∧ isWsdl facts03 "wsdl=&n=1".toList = true := by decide +kernel
 
 /-! ### the mechanisms the notation rests on -/
 
